@@ -257,6 +257,7 @@ def verify(spec, tier="quick", summaries=None, only_props=None, part=None):
             I = Interp(P, repo, summaries=summ)
             ctx = spec.setup(I, variant)
             ctx["oid_mark"] = P.next_oid - 1
+            wmark = len(P.writes)  # writes made while building the pre-state are not the function's
             from . import symseq as _ss
 
             ctx["tok_mark"] = _ss._tok[0]
@@ -312,7 +313,7 @@ def verify(spec, tier="quick", summaries=None, only_props=None, part=None):
                 discharge(P, goal, ob)
                 obs.append(ob)
             # frame
-            for obj, what in P.writes:
+            for obj, what in P.writes[wmark:]:
                 if not spec.allowed_write(I, ctx, obj, what):
                     ob = Obligation("%s%s/frame[%s %s]#p%d" % (short, vname, short_repr(obj), what[0], k), spec.props, "frame")
                     ob.status = "refuted"
